@@ -226,7 +226,8 @@ def eval_coq_terms(imports: List[str], terms: List[Tuple[int, str]], workdir: st
             fh.write("Set Printing Depth 10000000.\nSet Printing Width 1000000.\n")
             for cid, t in sh_terms:
                 fh.write(f"Definition c{cid} :=\n  {t}.\n")
-            fh.write("Eval vm_compute in [" + "; ".join(f"({cid}, c{cid})" for cid, _ in sh_terms) + "].\n")
+            for cid, _ in sh_terms:
+                fh.write(f"Eval vm_compute in ({cid}, c{cid}).\n")
         files.append(fn)
 
     def run(fn: str) -> Tuple[str, int, str]:
@@ -241,8 +242,9 @@ def eval_coq_terms(imports: List[str], terms: List[Tuple[int, str]], workdir: st
                 errors.append(f"{fn}: coqc rc={rc}: {out[-1500:]}")
                 continue
             try:
-                val = parse_coq_value(out)
-                for cid, v in val:
+                chunks = re.split(r"^\s*= ", out, flags=re.M)[1:]
+                for ch in chunks:
+                    cid, v = parse_coq_value("     = " + ch)
                     results[cid] = v
             except Exception as e:  # pragma: no cover
                 errors.append(f"{fn}: parse error {e}: {out[-500:]}")
